@@ -223,4 +223,115 @@ theorem autoLabels_none_iff (n : Nat) (instrs : List Instr) (ignore : Instr → 
     have hc : q ∈ T := by simpa using this
     exact hqT hc
 
+
+/-! ## soundness of the components -/
+
+/-- connected through instructions: equivalence closure of "occur in the same instruction" -/
+inductive Conn (instrs : List (List Nat)) : Nat → Nat → Prop
+  | refl (x : Nat) : Conn instrs x x
+  | edge (qs : List Nat) (a b : Nat) : qs ∈ instrs → a ∈ qs → b ∈ qs → Conn instrs a b
+  | symm {a b : Nat} : Conn instrs a b → Conn instrs b a
+  | trans {a b c : Nat} : Conn instrs a b → Conn instrs b c → Conn instrs a c
+
+/-- every qubit is connected to its component id -/
+def ConnInv (n : Nat) (instrs : List (List Nat)) (comp : List Nat) : Prop :=
+  comp.length = n ∧ ∀ x, x < n → Conn instrs x (cf comp x)
+
+theorem conn_step (n : Nat) (instrs : List (List Nat)) (comp qs : List Nat) (h : ConnInv n instrs comp)
+    (hqs : qs ∈ instrs) (hq : ∀ q ∈ qs, q < n) : ConnInv n instrs (sweepStep comp qs) := by
+  unfold sweepStep
+  simp only
+  cases hm : (qs.map (fun q => comp.getD q q)).min? with
+  | none => exact h
+  | some m =>
+    simp only
+    refine ⟨by simp [h.1], ?_⟩
+    intro x hx
+    rw [cf_map comp _ x (by rw [h.1]; exact hx)]
+    by_cases hc : (qs.map (fun q => comp.getD q q)).contains (cf comp x) = true
+    · simp only [hc, if_true]
+      have hmem : m ∈ qs.map (fun q => comp.getD q q) := List.min?_mem hm
+      obtain ⟨q0, hq0, e0⟩ := List.mem_map.1 hmem
+      have hcm : cf comp x ∈ qs.map (fun q => comp.getD q q) := by simpa using hc
+      obtain ⟨q1, hq1, e1⟩ := List.mem_map.1 hcm
+      -- x ~ cf x = cf q1 ~ q1 ~ q0 ~ cf q0 = m
+      have c1 : Conn instrs x (cf comp x) := h.2 x hx
+      have c2 : Conn instrs q1 (cf comp q1) := h.2 q1 (hq q1 hq1)
+      have c3 : Conn instrs q1 q0 := Conn.edge qs q1 q0 hqs hq1 hq0
+      have c4 : Conn instrs q0 (cf comp q0) := h.2 q0 (hq q0 hq0)
+      have e1' : cf comp q1 = cf comp x := e1
+      have e0' : cf comp q0 = m := e0
+      rw [e1'] at c2
+      rw [e0'] at c4
+      exact (c1.trans c2.symm).trans (c3.trans c4)
+    · have hc' : (qs.map (fun q => comp.getD q q)).contains (cf comp x) = false := by simpa using hc
+      simp only [hc', Bool.false_eq_true, if_false]
+      exact h.2 x hx
+
+theorem conn_sweep (n : Nat) (all : List (List Nat)) : ∀ (instrs : List (List Nat)) (comp : List Nat), ConnInv n all comp →
+    (∀ qs ∈ instrs, qs ∈ all ∧ ∀ q ∈ qs, q < n) → ConnInv n all (sweep instrs comp) := by
+  intro instrs
+  induction instrs with
+  | nil => intro comp h _; exact h
+  | cons qs rest ih =>
+    intro comp h hall
+    rw [sweep_eq, List.foldl_cons, ← sweep_eq]
+    exact ih _ (conn_step n all comp qs h (hall qs (by simp)).1 (hall qs (by simp)).2)
+      (fun qs' hqs' => hall qs' (List.mem_cons_of_mem _ hqs'))
+
+theorem conn_components (n : Nat) (instrs : List (List Nat)) (h : ∀ qs ∈ instrs, ∀ q ∈ qs, q < n) :
+    ConnInv n instrs (components n instrs) := by
+  unfold components
+  have gen : ∀ (l : List Nat) (comp : List Nat), ConnInv n instrs comp →
+      ConnInv n instrs (l.foldl (fun comp _ => sweep instrs comp) comp) := by
+    intro l
+    induction l with
+    | nil => intro comp hg; exact hg
+    | cons _ l ih => intro comp hg; exact ih _ (conn_sweep n instrs instrs comp hg (fun qs hqs => ⟨hqs, h qs hqs⟩))
+  exact gen _ _ ⟨by simp, fun x _ => by rw [cf_range]; exact Conn.refl x⟩
+
+/-- **T10.3 (soundness of the components)** two qubits that receive the same automatic label are connected through the
+instructions that are not ignored -/
+theorem autoLabels_same_connected (n : Nat) (instrs : List Instr) (ignore : Instr → Bool)
+    (hrange : ∀ i ∈ instrs, ∀ q ∈ i.qubits, q < n) (x y k : Nat) (hx : x < n) (hy : y < n)
+    (hlx : (autoLabels n instrs ignore).getD x none = some k) (hly : (autoLabels n instrs ignore).getD y none = some k) :
+    Conn ((instrs.filter (fun i => !ignore i)).map (·.qubits)) x y := by
+  set cinstrs := (instrs.filter (fun i => !ignore i)).map (·.qubits) with hc
+  have hci : ConnInv n cinstrs (components n cinstrs) := by
+    apply conn_components
+    intro qs hqs q hq
+    obtain ⟨i, hi, rfl⟩ := List.mem_map.1 hqs
+    exact hrange i (List.mem_filter.1 hi).1 q hq
+  set comp := components n cinstrs with hcomp
+  set roots := (List.range n).filter fun r =>
+    comp.getD r r == r && !(((List.range n).filter (fun y => comp.getD y y == r)).length == 1 &&
+      !((instrs.map (·.qubits)).flatten).contains r) with hroots
+  have hlab : ∀ z, z < n → (autoLabels n instrs ignore).getD z none =
+      (match roots.idxOf? (comp.getD z z) with | some k => some k | none => none) := by
+    intro z hz
+    unfold autoLabels
+    simp only [List.getD_eq_getElem?_getD, List.getElem?_map, List.getElem?_range hz, Option.map_some, Option.getD_some]
+    rfl
+  rw [hlab x hx] at hlx
+  rw [hlab y hy] at hly
+  have hkx : roots.idxOf? (comp.getD x x) = some k := by
+    cases h : roots.idxOf? (comp.getD x x) with
+    | none => rw [h] at hlx; cases hlx
+    | some k' => rw [h] at hlx; exact hlx
+  have hky : roots.idxOf? (comp.getD y y) = some k := by
+    cases h : roots.idxOf? (comp.getD y y) with
+    | none => rw [h] at hly; cases hly
+    | some k' => rw [h] at hly; exact hly
+  have heq : comp.getD x x = comp.getD y y := by
+    have h1 := List.idxOf?_eq_some_iff.1 hkx
+    have h2 := List.idxOf?_eq_some_iff.1 hky
+    obtain ⟨hk1, e1, _⟩ := h1
+    obtain ⟨hk2, e2, _⟩ := h2
+    rw [← e1, ← e2]
+  have cx := hci.2 x hx
+  have cy := hci.2 y hy
+  have : cf comp x = cf comp y := heq
+  rw [this] at cx
+  exact cx.trans cy.symm
+
 end CKT.C10
